@@ -12,17 +12,17 @@ import (
 )
 
 var c07 struct {
-	authUser, authPass   string
-	authOK               bool
-	proxyHdr             string // "" or a sentinel header value
-	pUser, pPass         string
-	pOK                  bool
-	forwardedRoute       *RouteConfig
-	forwardedInfo        *RequestRouteInfo
-	forwards             int
-	dialedRoute          string
-	status               int
-	challenge            bool
+	authUser, authPass string
+	authOK             bool
+	proxyHdr           string // "" or a sentinel header value
+	pUser, pPass       string
+	pOK                bool
+	forwardedRoute     *RouteConfig
+	forwardedInfo      *RequestRouteInfo
+	forwards           int
+	dialedRoute        string
+	status             int
+	challenge          bool
 }
 
 // stub for (*http.Request).BasicAuth: header decoding is net/http's job; any decoded result is possible.
